@@ -613,7 +613,10 @@ func shiftRangeInline(c *eng.Ctx, f *ssa.Function) {
 		if !ok || bo.Op != token.REM {
 			continue
 		}
-		if eng.DependsOn(bo.X, func(x ssa.Value) bool { b2, ok := x.(*ssa.BinOp); return ok && b2.Op == token.REM && x != ssa.Value(bo) }) {
+		if eng.DependsOn(bo.X, func(x ssa.Value) bool {
+			b2, ok := x.(*ssa.BinOp)
+			return ok && b2.Op == token.REM && x != ssa.Value(bo)
+		}) {
 			follower, at = idx, a.Instr // (first + 1 + (...) % (n-1)) % n : contains an inner remainder
 		} else {
 			first = idx
